@@ -13,7 +13,7 @@ from .. import AnalysisError, AnchorMissing
 from ..cfg import cfg_of
 from ..model import own_nodes
 from ..values import pattern, match, find, contains, show, subterms
-from .base import obligation, src, callee_name
+from .base import obligation, src, callee_name, if_branches, split_if
 from .C04 import pattern_term, returns, enclosing_loop, _inside
 
 RESERVED = {'_operation', '_output', '_stochastic', '_observable', '_uses_observed',
@@ -629,12 +629,12 @@ def c03_h(ctx):
         sel = [n for n in ast.walk(lo) if isinstance(n, ast.If)] if isinstance(lo, ast.For) else []
         okm = False
         for n in sel:
-            t = ex.term(n.test)
-            if match(t, pattern('_p in _o')) is not None:
+            br = if_branches(ex, n, '_p in _o')
+            if br is not None:
                 body_obs = any(isinstance(s, ast.Assign) and contains(
-                    ex.term(s.value), 'observed_name(_)') for s in n.body)
+                    ex.term(s.value), 'observed_name(_)') for s in br[0])
                 else_plain = any(isinstance(s, ast.Assign) and ex.term(s.value)[0] == 'elem'
-                                 for s in n.orelse)
+                                 for s in br[1])
                 okm = body_obs and else_plain
         ctx.check(okm, oc, 'observable parents get their twin',
                   'if parent in observable: observed_name(parent) else: parent',
